@@ -30,9 +30,11 @@ Quick == IF "QUICK" \in DOMAIN IOEnv THEN IOEnv.QUICK = "1" ELSE FALSE
 (* peer's Close frame behind whatever is still unread (the rest of a frame, of a message, whole messages, control frames).   *)
 LocalStates == {"idle", "halfread-final-frame", "halfread-last-fragment", "halfread-first-fragment", "nothing-read-of-two-messages-and-a-ping",
                 "message-read-to-the-end", "compressed-halfread"}
-SP(c, r, p, pre) == [dir |-> "send", code |-> c, rlen |-> r, exp |-> [o |-> CloseOutcome(c, r), code |-> 0, echo |-> FALSE], peer |-> p, pre |-> pre]
+SPK(c, r, p, pre, k) == [dir |-> "send", code |-> c, rlen |-> r, exp |-> [o |-> CloseOutcome(c, r), code |-> 0, echo |-> FALSE], peer |-> p, pre |-> pre, rkind |-> k]
+SP(c, r, p, pre) == SPK(c, r, p, pre, "ascii")
 S(c, r, p) == SP(c, r, p, "idle")
-Rv(c, r)   == [dir |-> "recv", code |-> c, rlen |-> r, exp |-> RecvOutcome(c, r), peer |-> "none", pre |-> "idle"]
+RvK(c, r, k) == [dir |-> "recv", code |-> c, rlen |-> r, exp |-> RecvOutcome(c, r), peer |-> "none", pre |-> "idle", rkind |-> k]
+Rv(c, r)   == RvK(c, r, "ascii")
 (* codes -1..65536 as a sequence (no set normalisation: 200k rows in a few seconds) *)
 CodeAt(i) == i - 2
 SendAll0   == [i \in 1..65538 |-> S(CodeAt(i), 0, "echo")]
@@ -43,6 +45,9 @@ AliasCodes == UNION { {65536 + c, 131072 + c, c - 65536, 65536 * 4096 + c} : c \
 Small == SetToSeq(
      { S(c, r, "echo") : c \in BoundaryCodes \cup {2147483647} \cup AliasCodes, r \in ReasonLens }
   \cup { S(c, 3, p) : c \in {1000, 1001, 3000, 4999, 1005}, p \in {"other", "none"} }
+  \* the limits are in bytes and the reason travels verbatim, whatever it is as text: reasons that are not valid UTF-8
+  \cup { SPK(c, r, "echo", "idle", "badutf8") : c \in {1000, 3000, 4999, 1006}, r \in {1, 2, 61, 122, 123, 124} }
+  \cup { RvK(c, r, "badutf8") : c \in {1000, 3000, 999}, r \in {1, 2, 61, 122, 123} }
   \cup { SP(c, r, "echo", pre) : c \in {1000, 1001, 3000, 4999, 1005, 1006}, r \in {0, 3, 123}, pre \in LocalStates \ {"idle"} }
   \cup { Rv(c, r) : c \in (BoundaryCodes \cap (0..65535)), r \in {1, 122, 123} }
   \cup { Rv(0, r) : r \in {-1, -2} })
